@@ -1,13 +1,13 @@
 (* Scoped.v — the scoped expression step and the scoped compile model (definitions only).
    `ev_scoped G` is `ev_subst` that refuses an expression one of whose symbols is neither defined by the
-   node's dictionary nor among the admitted global symbols G: C04's "well-scoped" made executable. *)
+   node's dictionary nor among the allowed global symbols G: C04's "well-scoped" made executable. *)
 From Coq Require Import List String QArith Bool.
 From Bq Require Import Expr RepModel Routine Compare Compile Preprocess.
 Import ListNotations.
 Open Scope string_scope.
 
 (* the scoped expression step: like ev_subst, but refuses an expression one of whose symbols is neither
-   defined by the dictionary nor among the admitted global symbols G *)
+   defined by the dictionary nor among the allowed global symbols G *)
 Definition EUnbound {A} : result A := EInternal 40.
 
 Definition ev_scoped (G : list string) (env : list (string * expr)) (e : expr) : result expr :=
